@@ -144,14 +144,23 @@ pub fn run_schedule(acts: &[String]) -> String {
             if let Some(Status::Live(_)) = futs.get(i) {
                 futs[i] = Status::Dropped; // drops the boxed future
             }
-        } else if let Some(d) = a.strip_prefix('d') {
+        } else if let Some(d) = a.strip_prefix('d').or_else(|| a.strip_prefix('D')) {
+            // `D…`: the same reply, padded with a comment to more than 1 MiB
+            let big = a.starts_with('D');
             let p: Vec<&str> = d.split('/').collect();
             let id = if p[0] == "n" {
                 None
             } else {
                 Some(p[0].parse().unwrap())
             };
-            peer.deliver(message(id, p[1].parse().unwrap(), p[2] == "1"));
+            let m = message(id, p[1].parse().unwrap(), p[2] == "1");
+            let m = if big {
+                let at = m.find('>').unwrap() + 1;
+                format!("{}<!--{}-->{}", &m[..at], "a".repeat(1_100_000), &m[at..])
+            } else {
+                m
+            };
+            peer.deliver(m);
         } else if let Some(n) = a.strip_prefix('r') {
             for _ in 0..n.parse::<usize>().unwrap() {
                 // a fair executor also polls a pending `rpc()` call
@@ -337,6 +346,9 @@ fn gen_drop_windows() -> Vec<Vec<String>> {
         s(&["s2", "s1", "d1/11/1", "d2/22/1", "r8"]),
         s(&["s1", "s2", "s2", "s1", "d3/33/1", "d4/44/1", "d2/22/1", "d1/11/1", "r8"]),
         s(&["s1", "s1", "p1", "x1", "s1", "d1/11/1", "d3/33/1", "r8"]),
+        // the reader is dropped right after it took ANOTHER request's reply off the transport
+        s(&["s1", "s1", "d1/11/1", "p1", "x1", "d2/22/1", "r8"]),
+        s(&["s1", "s1", "s1", "d1/11/1", "p2", "x2", "d2/22/1", "d3/33/1", "r8"]),
     ]
 }
 
@@ -353,7 +365,7 @@ pub fn main(opts: &Opts) {
     let mut scheds: Vec<Vec<String>> = vec![];
     if let Some(p) = &opts.replay {
         for l in std::fs::read_to_string(p).unwrap().lines() {
-            if let Some(d) = l.strip_prefix("case\t") {
+            if let Some(d) = l.strip_prefix("case\t").filter(|d| !d.starts_with("par;")) {
                 scheds.push(
                     d.split('\t')
                         .next()
@@ -366,6 +378,10 @@ pub fn main(opts: &Opts) {
         }
     } else {
         scheds.extend(gen_drop_windows());
+        // … and the same windows with replies of more than 1 MiB (size-dependent suspension points)
+        for w in gen_drop_windows() {
+            scheds.push(w.iter().map(|a| if a.starts_with('d') { format!("D{}", &a[1..]) } else { a.clone() }).collect());
+        }
         // long histories: n completed request/reply cycles on one session, then a request that is
         // abandoned unpolled while its reply is still on the way, then a new request (whatever
         // bookkeeping the session keeps per request has grown to n entries by then)
@@ -473,6 +489,102 @@ pub fn main(opts: &Opts) {
         }
         if sink.samples.len() < 6 && s.len() > 6 {
             sink.sample(format!("{case} -> {obs}"));
+        }
+    }
+    // ---- true parallelism -------------------------------------------------------------------------
+    // The hand-polled schedules interleave at `.await` points only. Two reply futures polled on two OS
+    // threads at once can also interleave between two statements with no `.await` in between (e.g. a
+    // lock released before the reply is parked). Each round: k requests, one future awaited on the
+    // calling thread, the others in spawned tasks of a multi-thread runtime, replies in a chosen order;
+    // a responsive server ⇒ every caller gets its own reply.
+    let replay_par = opts
+        .replay
+        .as_ref()
+        .map(|p| std::fs::read_to_string(p).unwrap_or_default().contains("case\tpar;"))
+        .unwrap_or(false);
+    if replay_par || (opts.replay.is_none() && !only_drop && !opts.extra.iter().any(|e| e == "only-close")) {
+        let rounds = if opts.thorough() { 1500 } else { 150 };
+        let rt = tokio::runtime::Builder::new_multi_thread().worker_threads(4).enable_all().build().unwrap();
+        let mut bad = 0;
+        for r in 0..rounds {
+            let k = 2 + r % 2;
+            let main_idx = r % k; // which request is awaited on the calling thread
+            let rev = (r / 6) % 2 == 1; // replies in reverse request order
+            let big = (r / 12) % 4 == 3; // now and then a large first reply (longer parse)
+            let case = format!("par;k={k};main={main_idx};rev={};big={};round={r}", rev as u8, big as u8);
+            progress(&case);
+            let out: Result<Vec<String>, String> = rt.block_on(async {
+                let (t, peer) = mt::new();
+                peer.deliver(mt::hello(&[mt::CAP_BASE10], 4));
+                let mut s = Session::verif_new(t).await.map_err(|e| format!("session: {e}"))?;
+                let mut futs = vec![];
+                for _ in 0..k {
+                    futs.push(s.rpc::<Get, _>(|b| b.finish()).await.map_err(|e| format!("rpc: {e}"))?);
+                }
+                let ids: Vec<String> = peer.sent()[1..].iter().map(|m| mt::message_id_of(m).unwrap_or_default()).collect();
+                let mut main_fut = None;
+                let mut handles = vec![];
+                for (i, f) in futs.into_iter().enumerate() {
+                    if i == main_idx {
+                        main_fut = Some(f);
+                    } else {
+                        handles.push((i, tokio::spawn(async move { f.await.map(|o| o.to_string()).map_err(|e| e.to_string()) })));
+                    }
+                }
+                // let the spawned futures start (one of them becomes the reader)
+                tokio::time::sleep(std::time::Duration::from_millis(2)).await;
+                let mut order: Vec<usize> = (0..k).collect();
+                if rev {
+                    order.reverse();
+                }
+                for (n, &i) in order.iter().enumerate() {
+                    let pad = if big && n == 0 { format!("<!--{}-->", "a".repeat(300_000)) } else { String::new() };
+                    peer.deliver(format!(
+                        "<rpc-reply xmlns=\"{}\" message-id=\"{}\">{pad}<data>{}</data></rpc-reply>]]>]]>",
+                        mt::BASE_NS,
+                        ids[i],
+                        100 + i
+                    ));
+                }
+                let mut res: Vec<String> = vec![String::new(); k];
+                let limit = std::time::Duration::from_secs(5);
+                res[main_idx] = match tokio::time::timeout(limit, main_fut.unwrap()).await {
+                    Err(_) => "pending".into(),
+                    Ok(Ok(v)) => format!("ok{v}"),
+                    Ok(Err(e)) => format!("err:{e}"),
+                };
+                for (i, h) in handles {
+                    res[i] = match tokio::time::timeout(limit, h).await {
+                        Err(_) => "pending".into(),
+                        Ok(Ok(Ok(v))) => format!("ok{v}"),
+                        Ok(Ok(Err(e))) => format!("err:{e}"),
+                        Ok(Err(_)) => "panic".into(),
+                    };
+                }
+                Ok(res)
+            });
+            progress_idle();
+            let verdict = match &out {
+                Err(e) => format!("violation harness-{}", e.replace(' ', "-")),
+                Ok(res) => {
+                    let want: Vec<String> = (0..k).map(|i| format!("ok{}", 100 + i)).collect();
+                    if *res == want {
+                        "ok".to_string()
+                    } else if res.iter().any(|x| x == "pending") {
+                        "violation request-not-completed".to_string()
+                    } else {
+                        "violation foreign-or-unknown-reply-delivered".to_string()
+                    }
+                }
+            };
+            if verdict != "ok" {
+                bad += 1;
+            }
+            sink.direct(&case, verdict);
+            sink.count("parallel.rounds");
+            if bad >= 3 {
+                break; // every failing round costs its time-outs
+            }
         }
     }
     sink.write(opts, "sched");
